@@ -26,10 +26,6 @@ import (
 //
 // https://docs.microsoft.com/en-us/typography/opentype/spec/cmap#format-0-byte-encoding-table
 func decodeFormat0(data []byte, code2rune func(c int) rune) (Subtable, error) {
-	if code2rune == nil {
-		code2rune = unicode
-	}
-
 	data = data[6:]
 	if len(data) != 256 {
 		return nil, fmt.Errorf("cmap: format 0: expected 256 bytes, got %d", len(data))
@@ -37,18 +33,36 @@ func decodeFormat0(data []byte, code2rune func(c int) rune) (Subtable, error) {
 
 	res := &Format0{}
 	copy(res.Data[:], data)
+	if code2rune != nil {
+		// the character codes are not runes: remember which rune each code stands for
+		res.runeToCode = make(map[rune]byte, 256)
+		for c := 255; c >= 0; c-- {
+			res.runeToCode[code2rune(c)] = byte(c)
+		}
+	}
 
 	return res, nil
 }
 
 type Format0 struct {
 	Data [256]byte
+
+	// runeToCode maps runes to character codes.
+	// If this is nil, the character codes are used as runes directly.
+	runeToCode map[rune]byte
 }
 
 // Lookup returns the glyph index for the given rune.
 // If the rune is not found, Lookup returns 0 (corresponding to the ".notdef" glyph).
 func (cmap *Format0) Lookup(r rune) glyph.ID {
-	if r > 255 {
+	if cmap.runeToCode != nil {
+		c, ok := cmap.runeToCode[r]
+		if !ok {
+			return 0
+		}
+		return glyph.ID(cmap.Data[c])
+	}
+	if r < 0 || r > 255 {
 		return 0
 	}
 	return glyph.ID(cmap.Data[r])
